@@ -138,7 +138,30 @@ def judge(case, drv):
     return r
 
 
+def judge_huge(drv, opts):
+    """A format 12 subtable with more than 65 535 groups (valid: numGroups is a uint32; CheckCmapSubtable12 accepts up to 0x10000000).
+    Seed S9-C13 searched it with 16-bit counters.  Single-code-point groups at U+10000 + 2i; probes sit around group indices 0, 2^15, 2^16 and
+    the last group, their odd (unmapped) neighbours, and a few BMP letters; the clauses are those of every other C13 case."""
+    n = 0x10000 + 40
+    c = dict(f4=[dict(pe=[3, 1], segs=[[0x41, 0x44, 'delta', (1 - 0x41) & 0xFFFF]])],
+             f12=dict(pe=[3, 10], groups=[[0x10000 + 2 * i, 0x10000 + 2 * i, 1 + i % (NGLYPHS - 1)] for i in range(n)]))
+    idx = [0, 1, 39, 40, 41, 32767, 32768, 65534, 65535, 65536, 65537, n - 2, n - 1]
+    chars = [0x41, 0x44, 0x45] + [0x10000 + 2 * i for i in idx] + [0x10000 + 2 * i + 1 for i in idx[::3]] + [0x10000 + 2 * n + 10]
+    try:
+        r = judge(dict(kind='synth', cmap=c, chars=chars, opts=opts, only=0x10000 + 2 * 65536), drv)
+    except Violation as v:
+        raise Violation(v.label, dict(kind='hugef12', opts=opts), str(v.detail)[:600])
+    return r
+
+
 def replay_case(case):
+    if case.get('kind') == 'hugef12':
+        drv = Driver()
+        try:
+            judge_huge(drv, case.get('opts', 0))
+        finally:
+            drv.kill()
+        return
     if case.get('kind') == 'shipped':
         res, crash = run_enum('enum_cmap', [fonts.path(case['font'])], timeout=600)
         if crash:
@@ -264,6 +287,14 @@ def worker(ctx):
                      first_segment_at_0=any(t['segs'] and t['segs'][0][0] == 0 for t in c['f4']), maps_FFFF=any(t['segs'] and t['segs'][-1][1] == 0xFFFF for t in c['f4']))
         return t
 
+    if ctx.k < 3:
+        try:
+            r = judge_huge(drv, [0, 4, 6][ctx.k])
+            rec.case(nontrivial_sig='hugef12-%d' % ctx.k if r and r.get('loaded') else None, sample=None, format12_with_more_than_65535_groups=1 if r and r.get('loaded') else 0)
+        except Violation as v:
+            ctx.report(v, replay_case)
+        except Inconclusive:
+            pass
     ctx.run_hypothesis(make, ctx.n(2400, 60000) // ctx.nworkers + 1, chunk=10, replay_fn=replay_case)
     try:
         drv.stop()
